@@ -259,6 +259,14 @@ var VerifDir = func() string {
 	return "/verif"
 }()
 
+// OutDir is where evidence/ and replays/ are written (default: VerifDir). Mutation experiments redirect it.
+var OutDir = func() string {
+	if d := os.Getenv("VERIF_OUT"); d != "" {
+		return d
+	}
+	return VerifDir
+}()
+
 func envSeed() uint64 {
 	s := os.Getenv("VERIF_SEED")
 	if s == "" {
@@ -659,7 +667,7 @@ func runParent(ck *Check, tier string, seed uint64, only string) int {
 	for _, s := range sigs {
 		fmt.Printf("KNOWN-FINDING: property=%s sig=%s %s\n", ck.ID, s, knownDesc[s])
 	}
-	os.MkdirAll(filepath.Join(VerifDir, "replays"), 0755)
+	os.MkdirAll(filepath.Join(OutDir, "replays"), 0755)
 	seenSig := map[string]bool{}
 	nviol := 0
 	for _, v := range unknown {
@@ -668,7 +676,7 @@ func runParent(ck *Check, tier string, seed uint64, only string) int {
 		}
 		seenSig[v.Sig] = true
 		nviol++
-		rp := filepath.Join(VerifDir, "replays", fmt.Sprintf("%s-%016x.json", ck.ID, Hash64(v.Sig, v.Key, strconv.FormatUint(seed, 10))))
+		rp := filepath.Join(OutDir, "replays", fmt.Sprintf("%s-%016x.json", ck.ID, Hash64(v.Sig, v.Key, strconv.FormatUint(seed, 10))))
 		rb, _ := json.MarshalIndent(map[string]interface{}{"property": ck.ID, "seed": seed, "tier": tier, "key": v.Key, "sig": v.Sig, "msg": v.Msg, "case": v.Case, "stderr": v.Stderr}, "", " ")
 		os.WriteFile(rp, rb, 0644)
 		fmt.Printf("VIOLATION property=%s replay=%s\n", ck.ID, rp)
@@ -708,8 +716,8 @@ func runParent(ck *Check, tier string, seed uint64, only string) int {
 	}
 	if only == "" {
 		eb, _ := json.MarshalIndent(ev, "", " ")
-		os.MkdirAll(filepath.Join(VerifDir, "evidence"), 0755)
-		os.WriteFile(filepath.Join(VerifDir, "evidence", ck.ID+".json"), eb, 0644)
+		os.MkdirAll(filepath.Join(OutDir, "evidence"), 0755)
+		os.WriteFile(filepath.Join(OutDir, "evidence", ck.ID+".json"), eb, 0644)
 	}
 	fmt.Printf("%s tier=%s seed=%d evaluations=%d distinct_nontrivial=%d known_sigs=%d violations=%d wall=%.1fs\n",
 		ck.ID, tier, seed, merged.Evaluations, distinct, len(knownSeen), nviol, time.Since(t0).Seconds())
